@@ -727,9 +727,15 @@ def generate(api):
                 "Definition mask_luminance_kept : bool := %s.\n"
                 "Definition mask_alpha_kept : bool := %s.\n"
                 "Definition group_order_filter_clip_mask_opacity : bool := %s.\n"
+                "(* render_group: the layer is drawn with PixmapPaint { opacity: group.opacity().get(), .., quality: Nearest } at the integer layer origin,\n"
+                "   identity transform, no mask - the path Model/ClipMask.v opacity_u8 models *)\n"
+                "Definition group_paint_is_opacity_nearest : bool := %s.\n"
                 % tuple('true' if b else 'false' for b in (
                     empty, order == want, kinds.get('Luminance') == 'Luminance', kinds.get('Alpha') == 'Alpha',
-                    [x.split('(')[0].strip() for x in seq] == ['crate::filter::apply', 'crate::clip::apply', 'crate::mask::apply', 'opacity: group.opacity'])))
+                    [x.split('(')[0].strip() for x in seq] == ['crate::filter::apply', 'crate::clip::apply', 'crate::mask::apply', 'opacity: group.opacity'],
+                    re.search(r"let\s+paint\s*=\s*tiny_skia::PixmapPaint\s*\{\s*opacity:\s*group\.opacity\(\)\.get\(\),\s*blend_mode:\s*convert_blend_mode\(group\.blend_mode\(\)\),"
+                              r"\s*quality:\s*tiny_skia::FilterQuality::Nearest,?\s*\}\s*;\s*pixmap\.draw_pixmap\(\s*ibbox\.x\(\),\s*ibbox\.y\(\),\s*sub_pixmap\.as_ref\(\),"
+                              r"\s*&paint,\s*tiny_skia::Transform::identity\(\),\s*None,?\s*\)", rg) is not None)))
     section('mask_shape', mask_shape, ('C15',), out_clip)
 
     api.write_gen('PixelTables.v', "\n".join(out))
